@@ -17,6 +17,8 @@ MUTANTS = [
     M("stream-opened-for-append", X + "archive_extractor.py", '        with zipfile.ZipFile(file_like, "r") as zf:\n            # Single pass', '        with zipfile.ZipFile(file_like, "a") as zf:\n            # Single pass', "C06-INPUT"),
     M("encoder-no-rewind", X + "serialization.py", "    position = buffer.tell()\n    buffer.seek(0)\n", "    position = buffer.tell()\n", "C06-STREAM"),
     M("get-bytes-returns-stored-stream", D, "    def get_bytes(self) -> io.BytesIO:\n        if self.data is None:\n            return io.BytesIO()\n        # A fresh stream per call: closing or writing to the returned stream\n        # must not change what the result holds\n        return io.BytesIO(self.data.getvalue())\n", "    def get_bytes(self) -> io.BytesIO:\n        if self.data is None:\n            return io.BytesIO()\n        self.data.seek(0)\n        return self.data\n", "C06-PURE"),
+    M("odf-content-type-from-host-db", X + "open_office/_shared.py", "        or _MIME_TYPES.guess_type(path)[0]\n", "        or mimetypes.guess_type(path)[0]\n", "C06-HOST"),
+    M("epub-mimetypes-with-host-files", X + "epub_extractor.py", "_MIME_TYPES = mimetypes.MimeTypes()\n", "_MIME_TYPES = mimetypes.MimeTypes(mimetypes.knownfiles)\n", "C06-HOST"),
 ]
 TWINS = [
     T("get-bytes-copy-via-read", D, "    def get_bytes(self) -> io.BytesIO:\n        if self.data is None:\n            return io.BytesIO()\n        # A fresh stream per call: closing or writing to the returned stream\n        # must not change what the result holds\n        return io.BytesIO(self.data.getvalue())\n", "    def get_bytes(self) -> io.BytesIO:\n        if self.data is None:\n            return io.BytesIO()\n        copy = io.BytesIO(self.data.getvalue())\n        return copy\n"),
